@@ -68,6 +68,8 @@ type parsedCluster struct {
 	name    string
 	color   string
 	results []string // ids as written
+	params  []string // targets of the dependency edges (with "|dashed" when dashed), sorted
+	groups  []string // value-group nodes it points at, sorted
 	sig     string
 }
 
@@ -156,6 +158,7 @@ func analyseDot(src string) (*parsedDot, error) {
 		sort.Strings(rs)
 		sort.Strings(params[pc])
 		sort.Strings(groups[pc])
+		pc.params, pc.groups = params[pc], groups[pc]
 		pc.sig = fmt.Sprintf("name=%s results=%v params=%v groups=%v", pc.name, rs, params[pc], groups[pc])
 	}
 	return pd, nil
@@ -464,6 +467,74 @@ func (m *Monitor) checkDotFailure(pd *parsedDot, info *invInfo, verr error) {
 		if !ok {
 			m.violate("C19", "C19.failure-root-cause", "red nodes %v are not the missing types of the invoked function or of a constructor on the path (candidates %v)", redNodes, cands)
 		}
+	}
+	// dependency edges in the failure picture: pruning removes the edges to results of constructors that are
+	// gone, nothing else. Every edge that is drawn is a declared dependency of its constructor (right style,
+	// right multiplicity), and a declared dependency keeps its edge when the node it points at is still in the
+	// picture (a result of a remaining constructor, or a red missing type) or when no accepted constructor of
+	// any scope produces that key at all (nothing was pruned for it).
+	drawn := map[string]bool{}
+	for _, pc := range pd.clusters {
+		for _, r := range pc.results {
+			drawn[r] = true
+		}
+	}
+	for _, id := range redNodes {
+		drawn[id] = true
+	}
+	producedAnywhere := map[string]bool{}
+	for _, r := range m.regs {
+		for k := range r.prod {
+			if k.Group == "" {
+				producedAnywhere[dotResultID(k)] = true
+			}
+		}
+	}
+	for _, pc := range pd.clusters {
+		r := byName[pc.name]
+		declared := map[string]int{}
+		declGroups := map[string]int{}
+		var must []string
+		for _, p := range r.F.Params {
+			if p.K.Group != "" {
+				declGroups[dotGroupID(p.K)]++
+				continue
+			}
+			id := dotResultID(p.K)
+			e := id
+			if p.Optional {
+				e += "|dashed"
+			}
+			declared[e]++
+			if drawn[id] || !producedAnywhere[id] {
+				must = append(must, e)
+			}
+		}
+		got := map[string]int{}
+		for _, e := range pc.params {
+			got[e]++
+			if got[e] > declared[e] {
+				m.violate("C19", "C19.failure-edges", "failure picture: constructor %s has an edge to %s that is no declared dependency (declared %v)", pc.name, e, declared)
+				return
+			}
+		}
+		gotG := map[string]int{}
+		for _, g := range pc.groups {
+			gotG[g]++
+			if gotG[g] > declGroups[g] {
+				m.violate("C19", "C19.failure-edges", "failure picture: constructor %s has an edge to value group %s that it does not consume", pc.name, g)
+				return
+			}
+		}
+		need := map[string]int{}
+		for _, e := range must {
+			need[e]++
+			if got[e] < need[e] {
+				m.violate("C19", "C19.failure-edges", "failure picture: constructor %s lost its edge to %s although that node is still in the picture (edges drawn: %v)", pc.name, e, pc.params)
+				return
+			}
+		}
+		m.stats["dot.failure-edges-checked"]++
 	}
 	// value groups in the failure picture: a group node that is drawn is linked to exactly the grouped
 	// results of the constructors that are still in the picture (members of pruned constructors go,
